@@ -37,7 +37,7 @@ def run():
     rep = Report("C15")
     rep.trusted_base = ["z3", "pyvc symbolic executor", "spglib Hall database (table part)"]
     rep.assumptions = [
-        "A-SPG: dataset.rotations are the rotation parts of the full space group of the input in the input basis: integer matrices with determinant +1 or -1",
+        "A-SPG: dataset.hall_number identifies the space group type of the input (independent of basis, supercell, orientation, atom order); spglib.get_symmetry_from_database returns all its operations: integer rotations with determinant +1 or -1",
         "A-NP: np.linalg.det returns a float within delta < 1/2 of the exact determinant (standard LU bound for bounded integer matrices); not assumed exact",
         "basis independence: det(P^-1 R P) = det R (proved as a polynomial identity below), so the set of determinants does not depend on basis/supercell/orientation/order given A-SPG",
     ]
@@ -84,13 +84,26 @@ def _test(rep):
         self_ = contexts.make_self(m, "SymmetryAnalyzer")
         return [self_], {}, {"n": n, "fs": fs, "seq": seq}
 
+    HALL = object()
+
     def ds_contract(it, st, bound, site):
-        # A-SPG: the dataset; get_symmetry_operations itself is executed from its real source (not under contract)
         class DS:
-            rotations = st.ghost["seq"]
+            hall_number = HALL
+            rotations = None  # the operations reported for the given cell are not what chirality is derived from (supercells)
             translations = None
 
         return DS
+
+    class SpglibShim:
+        """A-SPG: get_symmetry_from_database(hall_number) = all operations of that space group type in its standard setting"""
+
+        @staticmethod
+        def get_symmetry_from_database(h):
+            st = cur()
+            st.prove("call[spglib.get_symmetry_from_database].pre.argument-is-the-detected-hall-number", z3.BoolVal(h is HALL))
+            return {"rotations": st.ghost["seq"], "translations": None}
+
+    m.globals["spglib"] = SpglibShim
 
     def mk2(st, it):
         a, k, c = mk(st, it)
